@@ -27,7 +27,7 @@ ASSUMPTIONS = [
     "an untracked fail-flag file that makes a body raise before writing, and a stream of projects passing a value through a hashed in-memory node",
     "some histories drive the generated project through the programmatic interface build(tasks=[all task functions]) with tasks that declare "
     "dependencies as parameter defaults, in @task(kwargs=…), or both on one function; stream nodekinds: dependencies / products declared as Path, "
-    "PathNode, plain UPath and UPath('file://…') under fixed and changing PYTHONHASHSEED (oracle only; findings F61 / F62 classified narrowly)",
+    "PathNode, plain UPath and UPath('file://…') under fixed and changing PYTHONHASHSEED (oracle only; findings F61 / F62 are repaired, their witnesses are replayed from corpus/)",
 ]
 EDITS = ["write", "write", "revert", "rewrite_same", "touch", "delete_input", "bump", "revert_module", "tamper", "delete_product",
          "rewire", "add_task", "remove_task", "flag", "flag", "swap", "swap"]
